@@ -245,6 +245,8 @@ def replay(unit, obl):
 
 S_ = "tdgl.solver.solver"
 MUTANTS = [
+    dict(name="currents re-validated at every step", units=["update_mu_boundary[no rejection while stepping]"],
+         edits=[(S_, "        currents = self.current_func(time)\n        terminal_current_densities = self.terminal_current_densities", "        currents = self.current_func(time)\n        if sum(currents.values()) != 0:\n            raise ValueError(\"The sum of all terminal currents must be 0\")\n        terminal_current_densities = self.terminal_current_densities")]),
     dict(name="loose tolerance accepts 1e-6 imbalance", edits=[(S_, "if abs(total_current) > 1e-12 * max_current:", "if abs(total_current) > 1e-5 * max_current:")]),
     dict(name="epsilon check uses >=2", edits=[(S_, "if np.any(epsilon > 1):", "if np.any(epsilon > 2):")]),
     dict(name="empty terminal check dropped", edits=[(S_, "            if term_info.length == 0:", "            if False and term_info.length == 0:")]),
